@@ -7,6 +7,7 @@ import ast
 from typing import Dict, List, Optional, Set, Tuple
 
 from .core import AnalysisError, Loc, Report, norm
+from .normalize import canon
 from .pyfront import ClassInfo, Program, body_without_docstring, self_attr
 
 FILE = "jellyfysh/activator/tag_activator.py"
@@ -19,9 +20,18 @@ def _calls(node: ast.AST, attr: str) -> List[ast.Call]:
 
 def check(prog: Program, rep: Report) -> None:
     cls = prog.class_named("TagActivator")
-    methods = cls.methods
+    # canonical forms: private helpers inlined, locals propagated -- the accounting is a property of what a routine does
+    methods = {name: canon(prog, cls, fn) for name, fn in cls.methods.items()}
     # -- find the creation functions: contain a loop over <tagger>.yield_identifiers_send_event_time(...) ----------------
     creators = [fn for fn in methods.values() if _calls(fn, "yield_identifiers_send_event_time")]
+    # a private helper that is called only from other creators is part of them (it was inlined there)
+    def raw_self_calls(name: str) -> Set[str]:
+        return {c.func.attr for c in ast.walk(cls.methods[name]) if isinstance(c, ast.Call) and isinstance(c.func, ast.Attribute)
+                and isinstance(c.func.value, ast.Name) and c.func.value.id == "self"}
+    creator_names = {fn.name for fn in creators}
+    absorbed = {n for n in creator_names if n.startswith("_") and any(n in raw_self_calls(m) for m in creator_names - {n})
+                and not any(n in raw_self_calls(m) for m in cls.methods if m not in creator_names)}
+    creators = [fn for fn in creators if fn.name not in absorbed]
     if len(creators) < 2:
         raise AnalysisError("TagActivator: the two get_event_handlers_to_run variants were not found")
     pools: Set[Tuple[str, str]] = set()
@@ -84,40 +94,88 @@ def check(prog: Program, rep: Report) -> None:
         loop = loops[0]
         tvar = norm(loop.target)
         iter_ok = isinstance(loop.iter, ast.Subscript) and self_attr(loop.iter.value) is not None
-        seq = []
+        # symbolic execution of one iteration over list values: running[t] = (R0,), not_running[t] = (N0,), every local list
+        # that exists before the loop = (<name>0,).  Afterwards running[t] must be empty, not_running[t] = N0 + R0 and exactly
+        # one local list must have gained R0 (the collected handlers); aliases of the running list are followed.
+        R, N = ("R0",), ("N0",)
+        env: Dict[str, Tuple[Tuple[str, ...], bool]] = {}   # name -> (value, aliases the running list object)
+        unknown: List[str] = []
+
+        def is_pool(e: ast.AST, pool: str) -> bool:
+            return isinstance(e, ast.Subscript) and self_attr(e.value) == pool and norm(e.slice) == tvar
+
+        def val(e: ast.AST) -> Optional[Tuple[Tuple[str, ...], bool]]:
+            if is_pool(e, running):
+                return R, True
+            if is_pool(e, not_running):
+                return N, False
+            if isinstance(e, ast.Name):
+                return env.get(e.id, ((e.id + "0",), False))
+            if isinstance(e, ast.List) and not e.elts:
+                return (), False
+            if isinstance(e, ast.Call) and ((isinstance(e.func, ast.Name) and e.func.id in ("list", "copy", "tuple") and len(e.args) == 1)):
+                v = val(e.args[0])
+                return None if v is None else (v[0], False)
+            if isinstance(e, ast.Call) and isinstance(e.func, ast.Attribute) and e.func.attr == "copy" and not e.args:
+                v = val(e.func.value)
+                return None if v is None else (v[0], False)
+            if isinstance(e, ast.Subscript) and isinstance(e.slice, ast.Slice) and e.slice.lower is None and e.slice.upper is None:
+                v = val(e.value)
+                return None if v is None else (v[0], False)
+            if isinstance(e, ast.BinOp) and isinstance(e.op, ast.Add):
+                a, b = val(e.left), val(e.right)
+                return None if a is None or b is None else (a[0] + b[0], False)
+            return None
+
+        def store(target: ast.AST, v: Tuple[Tuple[str, ...], bool], rebinding: bool) -> bool:
+            nonlocal R, N
+            if is_pool(target, running):
+                if not rebinding:
+                    for k, (vv, al) in list(env.items()):
+                        if al:
+                            env[k] = (v[0], True)
+                else:
+                    for k, (vv, al) in list(env.items()):
+                        if al:
+                            env[k] = (vv, False)   # the name keeps the old list object
+                R = v[0]
+                return True
+            if is_pool(target, not_running):
+                N = v[0]
+                return True
+            if isinstance(target, ast.Name):
+                env[target.id] = (v[0], v[1] and rebinding)
+                return True
+            return False
         for st in loop.body:
-            if isinstance(st, ast.AugAssign) and isinstance(st.op, ast.Add):
-                src = st.value
-                if isinstance(src, ast.Subscript) and self_attr(src.value) == running and norm(src.slice) == tvar:
-                    if isinstance(st.target, ast.Subscript) and self_attr(st.target.value) == not_running \
-                            and norm(st.target.slice) == tvar:
-                        seq.append("to_not_running")
-                    elif isinstance(st.target, ast.Name):
-                        seq.append(("collect", st.target.id))
-            elif isinstance(st, ast.Assign) and isinstance(st.targets[0], ast.Subscript) \
-                    and self_attr(st.targets[0].value) == running and norm(st.targets[0].slice) == tvar \
-                    and isinstance(st.value, ast.List) and not st.value.elts:
-                seq.append("clear")
-            elif isinstance(st, ast.Expr) and isinstance(st.value, ast.Call) and isinstance(st.value.func, ast.Attribute) \
-                    and st.value.func.attr == "extend":
-                tgt, arg = st.value.func.value, st.value.args[0] if st.value.args else None
-                if isinstance(arg, ast.Subscript) and self_attr(arg.value) == running and norm(arg.slice) == tvar:
-                    if isinstance(tgt, ast.Subscript) and self_attr(tgt.value) == not_running:
-                        seq.append("to_not_running")
-                    elif isinstance(tgt, ast.Name):
-                        seq.append(("collect", tgt.id))
-            else:
-                seq.append("other")
-        collected = [x[1] for x in seq if isinstance(x, tuple)]
-        ok_order = "clear" in seq and "to_not_running" in seq and collected \
-            and seq.index("clear") > seq.index("to_not_running") \
-            and seq.index("clear") > max(i for i, x in enumerate(seq) if isinstance(x, tuple)) \
-            and seq.count("clear") == 1 and seq.count("to_not_running") == 1 and len(collected) == 1 \
-            and "other" not in seq
-        rep.ob("R9.3-linear-trash", bool(ok_order), Loc(FILE, loop.lineno, f"TagActivator.{tf.name}"),
+            done = False
+            if isinstance(st, ast.Assign) and len(st.targets) == 1:
+                v = val(st.value)
+                done = v is not None and store(st.targets[0], v, True)
+            elif isinstance(st, ast.AugAssign) and isinstance(st.op, ast.Add):
+                a, b = val(st.target), val(st.value)
+                done = a is not None and b is not None and store(st.target, (a[0] + b[0], a[1]), False)
+            elif isinstance(st, ast.Expr) and isinstance(st.value, ast.Call) and isinstance(st.value.func, ast.Attribute):
+                c = st.value
+                if c.func.attr == "extend" and len(c.args) == 1:
+                    a, b = val(c.func.value), val(c.args[0])
+                    done = a is not None and b is not None and store(c.func.value, (a[0] + b[0], a[1]), False)
+                elif c.func.attr == "clear" and not c.args:
+                    a = val(c.func.value)
+                    done = a is not None and store(c.func.value, ((), a[1]), False)
+            elif isinstance(st, (ast.Pass, ast.Assert)) or (isinstance(st, ast.Expr) and isinstance(st.value, ast.Constant)):
+                done = True
+            if not done:
+                unknown.append(norm(st))
+        gained = [k for k, (vv, al) in env.items() if vv == (k + "0", "R0")]
+        collected = gained
+        seq = {"running": R, "not_running": N, **{k: v[0] for k, v in env.items()}}
+        ok_order = not unknown and R == () and N == ("N0", "R0") and len(gained) == 1
+        rep.ob("R9.3-linear-trash", (None if unknown else bool(ok_order)), Loc(FILE, loop.lineno, f"TagActivator.{tf.name}"),
                f"{tf.name}: move running -> not-running, collect, then clear",
-               f"for every trashed tagger all running handlers must be returned to the not-running pool and reported "
-               f"exactly once before the running list is cleared (found sequence {seq})")
+               (f"statement not interpreted: {unknown[0]}" if unknown else
+                f"for every trashed tagger all running handlers must be returned to the not-running pool and reported "
+                f"exactly once and the running list must end up empty (one iteration gives {seq})"))
         rets = [n for n in ast.walk(tf) if isinstance(n, ast.Return)]
         rep.ob("R9.3-trash-returns-collected", bool(rets) and all(r.value is not None and collected and norm(r.value) == collected[0]
                                                                   for r in rets),
@@ -125,13 +183,7 @@ def check(prog: Program, rep: Report) -> None:
         rep.ob("R9.3-trash-iterates-trash-list", iter_ok, loc, f"{tf.name}: iterates {norm(loop.iter)}",
                "the loop must run over the trash list of the committing tagger")
         # which dictionary: must be the one built from 'trashes'
-        init = methods.get("__init__")
-        built: Dict[str, str] = {}
-        if init:
-            for n in ast.walk(init):
-                if isinstance(n, ast.Assign) and self_attr(n.targets[0]) and isinstance(n.value, ast.Call) \
-                        and n.value.args and isinstance(n.value.args[0], ast.Constant):
-                    built[self_attr(n.targets[0])] = n.value.args[0].value
+        built = _built_from(cls, methods)
         if isinstance(loop.iter, ast.Subscript):
             rep.ob("R9.3-trash-list-is-trashes", built.get(self_attr(loop.iter.value)) == "trashes", loc,
                    f"{self_attr(loop.iter.value)} built from `{built.get(self_attr(loop.iter.value))}`",
@@ -155,7 +207,7 @@ def check(prog: Program, rep: Report) -> None:
                            f"the loop that {want[:-1]}s taggers iterates the dictionary built from "
                            f"`{built.get(self_attr(loop2.iter.value))}`")
     # -- who else writes the pools -------------------------------------------------------------------------------------
-    allowed = {fn.name for fn in creators} | {tf.name, "initialize", "__init__"}
+    allowed = {fn.name for fn in creators} | absorbed | {tf.name, "initialize", "__init__"}
     for mi in prog.modules.values():
         for n in ast.walk(mi.tree):
             if isinstance(n, ast.Attribute) and n.attr in (running, not_running):
@@ -199,6 +251,47 @@ def check(prog: Program, rep: Report) -> None:
                 it_ok = isinstance(up, ast.For) and self_attr(up.iter) is not None
                 rep.ob("R9.4-update-all-states", it_ok, loc, f"{fn.name}: updates every internal state",
                        "the update loop must run over all internal states")
+
+
+def _built_from(cls: ClassInfo, methods: Dict[str, ast.FunctionDef]) -> Dict[str, str]:
+    """
+    self.<dict> -> name of the tagger attribute list it is built from ('creates', 'trashes', 'activates', 'deactivates'):
+    either `self.X = self._helper("trashes")` (raw constructor) or, with the helper inlined, the loop over
+    `getattr(tagger, "trashes")` / `tagger.trashes` that fills the dictionary assigned to self.X.
+    """
+    built: Dict[str, str] = {}
+    raw = cls.methods.get("__init__")
+    if raw is not None:
+        for n in ast.walk(raw):
+            if isinstance(n, ast.Assign) and self_attr(n.targets[0]) and isinstance(n.value, ast.Call) \
+                    and n.value.args and isinstance(n.value.args[0], ast.Constant) and isinstance(n.value.args[0].value, str):
+                built[self_attr(n.targets[0])] = n.value.args[0].value
+    init = methods.get("__init__")
+    if init is not None:
+        body = list(init.body)
+        for i, st in enumerate(body):
+            if isinstance(st, ast.Assign) and self_attr(st.targets[0]) and isinstance(st.value, ast.Name) and self_attr(st.targets[0]) not in built:
+                v = st.value.id
+                for prev in reversed(body[:i]):
+                    hit = None
+                    for lp in ast.walk(prev):
+                        if not isinstance(lp, ast.For):
+                            continue
+                        it = lp.iter
+                        const = None
+                        if isinstance(it, ast.Call) and norm(it.func) == "getattr" and len(it.args) >= 2 and isinstance(it.args[1], ast.Constant):
+                            const = it.args[1].value
+                        elif isinstance(it, ast.Attribute) and it.attr in ("creates", "trashes", "activates", "deactivates"):
+                            const = it.attr
+                        fills = any(isinstance(c, ast.Call) and isinstance(c.func, ast.Attribute) and c.func.attr in ("append", "extend")
+                                    and isinstance(c.func.value, ast.Subscript) and isinstance(c.func.value.value, ast.Name)
+                                    and c.func.value.value.id == v for c in ast.walk(lp))
+                        if const is not None and fills:
+                            hit = const
+                    if hit is not None:
+                        built[self_attr(st.targets[0])] = hit
+                        break
+    return built
 
 
 def _enclosing_fn(tree: ast.Module, node: ast.AST) -> str:
